@@ -55,9 +55,9 @@ M = [
      "        self.syscond = [0, 0, 0, 0, 0, 0, 0, 0, 0, 0, 0, 0,\n                        0, 0, 0, 0, 0, 0, 0, 0, 2, 0, 0,", 1, "violation", "C05:syscond:Sg4:standard"),
     ("C05", T, "    if cell_choice == 'rhombohedral' or crystal_system == 'cubic':", "    if cell_choice == 'rhombohedral':", None, "violation", "C05:syscond:Sg223"),
     ("C06", L, "                HSAVE = HSAVE + segm[segn, 2, :]\n                HLAST = HSAVE\n                HNEW  = HLAST\n                sintlH   = sintl(unit_cell, HNEW)",
-     "                HSAVE = HSAVE + segm[segn, 2, :]\n                HLAST = HSAVE\n                HNEW  = HLAST", None, "violation", "C06:insync:laue:HLAST"),
+     "                HSAVE = HSAVE + segm[segn, 2, :]\n                HLAST = HSAVE\n                HNEW  = HLAST", None, "violation", "C06:walk:laue:-1:standard"),
     ("C06", T, "                            if  sintlH > sintlmin and sintlH <= sintlmax:\n                                H = n.concatenate((H, [HLAST]))\n                                stl",
-     "                            if  sintlH >= sintlmin and sintlH <= sintlmax:\n                                H = n.concatenate((H, [HLAST]))\n                                stl", None, "violation", "C06:shell:tools"),
+     "                            if  sintlH >= sintlmin and sintlH <= sintlmax:\n                                H = n.concatenate((H, [HLAST]))\n                                stl", None, "violation", "C06:walk:tools:-1:standard"),
     ("C06", G, '        self.Laue = "4/m"', '        self.Laue = "4/mmm"', 3, "violation", "C06:domain:Sg77"),
     ("C06", T, "        segm = n.array([[[ 0, 0,  0], [ 1, 0, 0], [ 1, 1, 0], [ 1, 1,  1]],\n                        [[ 1, 2,  0], [ 0, 1, 0], [ 1, 1, 0], [ 1, 1,  1]]])",
      "        segm = n.array([[[ 0, 0,  0], [ 1, 0, 0], [ 1, 1, 0], [ 1, 1,  1]],\n                        [[ 1, 2,  0], [ 0, 1, 0], [ 1, 1, 0], [ 1, 1,  0]]])", None, "violation", "C06:dispatch:m-3"),
@@ -187,7 +187,7 @@ M += [
     # gimbal test on the cosine (C03b)
     ("C03", L, "    PHI = np.arccos(U[2, 2])\n    if np.abs(PHI)<tol:", "    PHI = np.arccos(U[2, 2])\n    if 1 - U[2, 2] < tol:", None, "violation", "C03:snap:laue.gimbal-band"),
     # counter reset per cone (C05b); removing the duplicated sysabs call is neutral
-    ("C05", T, "        htest = 0\n        ktest = 0\n        ltest = 0\n        HLAST = segm[segn, 0, :]\n        HSAVE = segm[segn, 0, :]", "        nref = 0\n        htest = 0\n        ktest = 0\n        ltest = 0\n        HLAST = segm[segn, 0, :]\n        HSAVE = segm[segn, 0, :]", None, "violation", "C05:visit:tools.origin-only"),
+    ("C05", T, "        htest = 0\n        ktest = 0\n        ltest = 0\n        HLAST = segm[segn, 0, :]\n        HSAVE = segm[segn, 0, :]", "        nref = 0\n        htest = 0\n        ktest = 0\n        ltest = 0\n        HLAST = segm[segn, 0, :]\n        HSAVE = segm[segn, 0, :]", None, "violation", "C05:walk:tools:-1:standard"),
     ("C05", L, "                        ressss = sysabs(HLAST, sysconditions, crystal_system, cell_choice)\n", "", 1, "silent", ""),
     ("C05", L, "                        if sysabs(HLAST, sysconditions, crystal_system, cell_choice) == 0:", "                        if sysabs(HLAST, sysconditions, crystal_system) == 0:", None, "violation", "C05:syscond:Sg161:rhombohedral:laue"),
     # inversion added conditionally (C06b)
